@@ -948,26 +948,26 @@ func (f *Field) ClearBit(rowID, colID uint64) (changed bool, err error) {
 	} else if len(f.viewMap) == 0 {
 		return changed, nil
 	}
-	lastViewNameSize := 0
-	level := 0
 	skipAbove := maxInt
 	for _, view := range f.allTimeViewsSortedByQuantum() {
-		if lastViewNameSize < len(view.name) {
-			level++
-		} else if lastViewNameSize > len(view.name) {
-			level--
-		}
+		// The level of a view is the granularity of its time suffix: year,
+		// month, day, hour. It must be derived from the view itself: going
+		// from a day view back to the next year view drops two levels, and
+		// counting one step per change of name length left the level too
+		// high, so the views of every later year were skipped.
+		level := len(viewTimePart(view.name))
 		if level < skipAbove {
-			if changed, err = view.clearBit(rowID, colID); err != nil {
+			cleared, err := view.clearBit(rowID, colID)
+			if err != nil {
 				return changed, errors.Wrapf(err, "clearing on view %s", view.name)
 			}
-			if !changed {
+			if !cleared {
 				skipAbove = level + 1
 			} else {
+				changed = true
 				skipAbove = maxInt
 			}
 		}
-		lastViewNameSize = len(view.name)
 	}
 
 	return changed, nil
